@@ -1,11 +1,13 @@
 package main
 
 import (
+	"bufio"
 	"bytes"
 	"errors"
 	"fmt"
 	"io"
 	"os"
+	"strings"
 	"syscall"
 	"unsafe"
 
@@ -52,11 +54,13 @@ func recByEntropy(ent []byte, lang int64, extra Event) (out string, err error) {
 // recCheck calls CheckMnemonic and IsMnemonicValid on the same input.
 func recCheck(in string, lang int64, extra Event) (err error) {
 	var valid bool
+	in = strings.Clone(in) // a heap copy the library could (wrongly) write through; compared after the call
+	before := []byte(in)
 	o := guarded(func() {
 		err = bip39.CheckMnemonic(in, bip39.Language(lang))
 		valid = bip39.IsMnemonicValid(in, bip39.Language(lang))
 	})
-	e := Event{"op": "Check", "in": units(in), "lang": langField(lang), "err": errRec(err), "valid": valid}
+	e := Event{"op": "Check", "in": units(string(before)), "lang": langField(lang), "err": errRec(err), "valid": valid, "in_same": in == string(before)}
 	emit(merge(o.into(e), extra))
 	keepErr(err)
 	return
@@ -138,13 +142,16 @@ var keptLines []int
 // scribbles over the first result to observe sharing of backing storage.
 func recToSeed(m, p string, alias bool, extra Event) (seed []byte) {
 	var s1, s2 []byte
+	m, p = strings.Clone(m), strings.Clone(p)
+	mb, pb := []byte(m), []byte(p)
 	o := guarded(func() {
 		s1 = bip39.MnemonicToSeed(m, p)
 		if alias {
 			s2 = bip39.MnemonicToSeed(m, p)
 		}
 	})
-	e := Event{"op": "ToSeed", "m": units(m), "p": units(p), "seed": ints(s1), "len": len(s1), "cap": cap(s1), "aliased": false, "alias_checked": alias}
+	e := Event{"op": "ToSeed", "m": units(string(mb)), "p": units(string(pb)), "seed": ints(s1), "len": len(s1), "cap": cap(s1), "aliased": false, "alias_checked": alias,
+		"in_same": m == string(mb) && p == string(pb)}
 	seed = append([]byte(nil), s1...)
 	if alias && len(s1) > 0 && len(s2) > 0 {
 		same := unsafe.SliceData(s1) == unsafe.SliceData(s2)
@@ -286,6 +293,34 @@ func (s *scriptReader) Read(p []byte) (int, error) {
 		emit(Event{"op": "Read", "asked": len(p), "gave": k, "bytes": ints(b), "errkind": st.Err})
 	}
 	return k, err
+}
+
+// byteScriptReader: the same scripted source, additionally an io.ByteReader (a library that type-switches on
+// its source must still take exactly the bytes the source delivers)
+type byteScriptReader struct{ *scriptReader }
+
+func (b byteScriptReader) ReadByte() (byte, error) {
+	var one [1]byte
+	n, err := b.scriptReader.Read(one[:])
+	if n == 1 {
+		return one[0], nil
+	}
+	if err == nil {
+		err = io.ErrNoProgress
+	}
+	return 0, err
+}
+
+// wrapSource: the scripted source as the library sees it - plain, as io.ByteReader, or behind a *bufio.Reader
+// of minimal size (16 bytes: bufio reads ahead, the Read events then show what bufio asked for)
+func wrapSource(s *scriptReader, how string) io.Reader {
+	switch how {
+	case "bytereader":
+		return byteScriptReader{s}
+	case "bufio":
+		return bufio.NewReaderSize(s, 16)
+	}
+	return s
 }
 
 // recNewMnemonic: Call event, the call (Read events come from the source), Return event.
